@@ -597,7 +597,7 @@ impl WLcg {
   fn below(&mut self, n: u64) -> u64 { self.next() % n }
 }
 
-// wake = 0: one event per wake-up. wake != 0 (a seed): runs of up to four consecutive key events have all arrived when the loop
+// wake = 0: one event per wake-up. wake != 0 (a seed): runs of up to four (rarely up to 24) consecutive key events have all arrived when the loop
 // wakes up (it reads them in one drain), and now and then a signal interrupts the wait in front of a wake-up; the grouping is a
 // function of the seed and the position only, so that a prefix of the history is grouped the same way (replay).
 // sendfault = k: every k-th write is answered EAGAIN (0 = never); a loop that stops at the first one never meets the second.
@@ -613,7 +613,9 @@ fn walk_run(layout: &Layout, history: &[(Option<Event>, Vec<Event>)], noise: u8,
         let mut group = vec![e.clone()];
         if wake != 0 {
           if rng.below(100) < 6 { labels.push(Lbl::PollIntr); }
-          while group.len() < 4 && i < history.len() && history[i].0.is_some() && rng.below(100) < 55 {
+          // now and then a long burst (a stalled process, a device that types a string in one go)
+          let (cap, go_on) = if rng.below(100) < 3 { (24, 96) } else { (4, 55) };
+          while group.len() < cap && i < history.len() && history[i].0.is_some() && rng.below(100) < go_on {
             group.push(history[i].0.clone().unwrap());
             i += 1;
           }
